@@ -105,7 +105,7 @@ def make_valid_items(ctx, rng, n, variants=2, threads=False, sizes=None):
         g = scen_hash(s)
         for v in range(variants):
             r = {"spelling": ["mixed", "id", "alias", "mixed"][v % 4], "shuffle": v % 2 == 1, "descriptive": (k + v) % 3 == 2,
-                 "seed": rng.randrange(1 << 30), "numeric_names": True if (k + v) % 4 == 0 else ("odd" if (k + v) % 4 == 2 else ("own" if (k + v) % 8 == 3 else False))}
+                 "seed": rng.randrange(1 << 30), "numeric_names": True if (k + v) % 4 == 0 else ("odd" if (k + v) % 4 == 2 else ("own" if (k + v) % 8 == 3 else ("case" if (k + v) % 8 == 7 else False)))}
             doc = S.render(s, random.Random(r["seed"]), r["spelling"], r["shuffle"], r["descriptive"], r["numeric_names"])
             items.append(Item(s, doc, "valid", render=r, group=g))
     return items
@@ -117,7 +117,7 @@ def make_mutant_items(ctx, rng, n, owners, threads=False):
     for k in range(n):
         s, name, owner, desc = M.mutate(rng, only=owners, threads=threads)
         r = {"spelling": "id" if name in M.FORCE_ID_SPELLING else "mixed", "shuffle": k % 2 == 1, "descriptive": k % 4 == 3 and name not in M.FORCE_ID_SPELLING,
-             "seed": rng.randrange(1 << 30), "numeric_names": (k % 5 == 0 and name not in ("duplicate_id", "duplicate_name")) or ("odd" if k % 5 == 2 else ("own" if k % 5 == 4 and name not in ("duplicate_id", "duplicate_name") else False))}
+             "seed": rng.randrange(1 << 30), "numeric_names": (k % 5 == 0 and name not in ("duplicate_id", "duplicate_name")) or ("odd" if k % 5 == 2 else ("own" if k % 10 == 4 and name not in ("duplicate_id", "duplicate_name") else ("case" if k % 10 == 9 and name not in ("duplicate_id", "duplicate_name", "duplicate_attribute") else False)))}
         doc = S.render(s, random.Random(r["seed"]), r["spelling"], r["shuffle"], r["descriptive"], r["numeric_names"])
         items.append(Item(s, doc, "mutant", mutator=name, owner=owner, desc=desc, render=r, group=scen_hash(s)))
     return items
